@@ -49,6 +49,38 @@ Lemma ukf_stale_likelihood_components_refuted :
   check_shapes (p_ukf_lik_stale_before_201e1b4 2 1) = Some (e_ukfl, "predicted_meas_.covariance(i)"%string).
 Proof. vm_compute. reflexivity. Qed.
 
+(* ---- before e82207d: UKFCorrection sliced Pxy with meas_size = total_size() (4 per quaternion) while its
+        blocks are dim_covariance (3 per quaternion) wide: xr rows, mdc*comps columns *)
+Definition p_ukfc_gain_before_e82207d (xr comps : nat) (lm : layout) : prog :=
+  for_ comps (fun i =>
+    [ It e_ukfc "Pxy.middleCols(meas_size*i,meas_size)" (Blk xr (lcov lm * comps) 0 (ldim lm * i) xr (ldim lm));
+      It e_ukfc "Pxy_i*Py^-1" (Mul xr (ldim lm) (lcov lm) (lcov lm)) ]).
+Lemma ukfc_quaternion_measurement_refuted :
+  check_shapes (p_ukfc_gain_before_e82207d 3 1 (Lay 0 1 true 0))
+  = Some (e_ukfc, "Pxy.middleCols(meas_size*i,meas_size)"%string).
+Proof. vm_compute. reflexivity. Qed.
+(* without quaternions the two sizes coincide: the old program was safe there *)
+Lemma ukfc_gain_old_safe_without_quaternions xr comps lm : quat lm = false ->
+  run (p_ukfc_gain_before_e82207d xr comps lm) = Safe.
+Proof.
+  intro Hq. apply run_safe_iff. unfold p_ukfc_gain_before_e82207d.
+  destruct lm as [L C q N]; simpl in Hq; subst q. lay_cbn. repeat step; finish2.
+Qed.
+(* the same configuration through the current transcription *)
+Lemma ukfc_quaternion_measurement_now_safe :
+  run (case_ukfc false (Lay 3 0 false 0) 1 2 true (Lay 0 1 true 0) 3 (Lay 3 0 false 0) 1 false) = Safe.
+Proof. vm_compute. reflexivity. Qed.
+
+(* ---- before d09c5ac: ResamplingWithPrior built its three temporaries without use_quaternion *)
+Definition p_resprior_copy_before_d09c5ac (lc : layout) (n k : nat) : prog :=
+  let lt := Lay (lin lc) (circ lc) false 0 in
+  for_ (n - k) (fun j => [ It e_resp "tmp.state(j)=" (Same (ldim lt) 1 (ldim lc) 1) ]).
+Lemma resprior_quaternion_refuted :
+  check_shapes (p_resprior_copy_before_d09c5ac (Lay 2 1 true 0) 4 2) = Some (e_resp, "tmp.state(j)="%string).
+Proof. vm_compute. reflexivity. Qed.
+Lemma resprior_quaternion_now_safe : run (case_resprior (Lay 2 1 true 0) 4 2 4) = Safe.
+Proof. vm_compute. reflexivity. Qed.
+
 (* ---- before b8dad93: getNoiseSample drew a 4 x num buffer for every Dim (LinearModel: 2 x num for every m) *)
 Definition p_wna_noise_before_b8dad93 (D num : nat) : prog :=
   [ It e_wna_noise "sqrt_Q_*rand_vectors" (Mul (wna_d D) (wna_d D) 4 num) ].
